@@ -125,6 +125,16 @@ Definition build_pinned_b (l : list (src * directive)) : builder := tbuild_pinne
 Definition file_directives (path : str) (l : list (Z * directive)) : list (src * directive) :=
   map (fun od => (mkSrc path (fst od), snd od)) l.
 
+(* model.FromStream + ParseDirective on syntax directives with their source: every model
+   directive made from a syntax directive carries that directive's source *)
+Fixpoint tparse (l : list (src * sdirective)) : mresult (list (src * directive)) :=
+  match l with
+  | [] => MOk []
+  | (s, d) :: rest =>
+    mbind (parse_directive d) (fun ds =>
+    mbind (tparse rest) (fun ds' => MOk (map (fun x => (s, x)) ds ++ ds')))
+  end.
+
 (* ---------------------------------------------------------------- the commands, from the journal on
 
    The bodies of Model/Cli.v, CliTranscode.v and CliPortfolio.v after `load`: the same
@@ -194,3 +204,8 @@ Definition returns_of (fx : fixes) (cfg : pf_cfg) (b : builder) : cresult str :=
 (* a command run on the directives in arrival order [l]: Build, then the command *)
 Definition run_sorted {R} (cmd : builder -> R) (l : list (src * directive)) : R := cmd (build_sorted_b l).
 Definition run_pinned {R} (cmd : builder -> R) (l : list (src * directive)) : R := cmd (build_pinned_b l).
+
+(* `knut print` on syntax directives in arrival order [l] (the entry point of the
+   correspondence check C06.order) *)
+Definition print_tagged (lenient : bool) (l : list (src * sdirective)) : cresult str :=
+  cbind (of_mresult (tparse l)) (run_sorted (print_of lenient)).
